@@ -239,7 +239,7 @@ func c33BuildSeq(a [][]byte) *Case {
 		switch op {
 		case 'W':
 			x, ok := c33Atoi(a[i+2])
-			if !ok || e < 1 || e > 2 || x/256 > 20000 {
+			if !ok || e < 1 || e > 2 || x/256 > 3<<20 {
 				return nil
 			}
 			p := c33Payload(x%256, x/256)
@@ -256,6 +256,9 @@ func c33BuildSeq(a [][]byte) *Case {
 				wrote[e] = append(wrote[e], p...)
 				obs = append(obs, fmt.Sprintf("W:ok%d", n))
 				nW++
+				if len(p) > 256*1024 {
+					tags["seq-big-write"] = true
+				}
 				if len(p) == 0 {
 					tags["seq-empty-write"] = true
 				}
@@ -263,15 +266,31 @@ func c33BuildSeq(a [][]byte) *Case {
 				if !closed {
 					fail("write-closed-before-close", "Write at end %d returned ErrConnectionClosed although the pipe was not closed", e)
 				}
-				if n != 0 {
-					fail("failed-write-count", "failed Write returned n=%d", n)
+				// io.Writer: n is the number of bytes written even when err != nil; the stream monitor holds Write to it
+				if n < 0 || n > len(p) {
+					fail("write-count-range", "Write of %d bytes returned n=%d", len(p), n)
+					n = 0
 				}
-				obs = append(obs, "W:closed")
+				if n > 0 && closed {
+					fail("write-after-close-succeeded", "Write at end %d after Close reported %d bytes written", e, n)
+				}
+				wrote[e] = append(wrote[e], p[:n]...)
+				if n == 0 {
+					obs = append(obs, "W:closed")
+				} else {
+					obs = append(obs, fmt.Sprintf("W:closed%d", n))
+				}
 			case error(fasthttputil.ErrTimeout):
-				if n != 0 {
-					fail("failed-write-count", "failed Write returned n=%d", n)
+				if n < 0 || n > len(p) {
+					fail("write-count-range", "Write of %d bytes returned n=%d", len(p), n)
+					n = 0
 				}
-				obs = append(obs, "W:block")
+				wrote[e] = append(wrote[e], p[:n]...)
+				if n == 0 {
+					obs = append(obs, "W:block")
+				} else {
+					obs = append(obs, fmt.Sprintf("W:block%d", n))
+				}
 				tags["seq-block"] = true
 			default:
 				fail("write-unknown-error", "Write returned unexpected error %v", err)
@@ -338,7 +357,11 @@ func c33BuildSeq(a [][]byte) *Case {
 	for e := 1; e <= 2; e++ {
 		o := 3 - e
 		eof := false
-		for it := 0; it < 64 && !eof; it++ {
+		maxIt := 64 + (len(wrote[o])-len(got[e]))/4096 + 1 // every read delivers a whole 4096 unless a buffer ends; 64 spare for buffer ends / empty buffers
+		if maxIt < 64 {
+			maxIt = 64
+		}
+		for it := 0; it < maxIt && !eof; it++ {
 			k, err, data := doRead(e, 4096)
 			checkRead(e, 4096, k, err, data)
 			if err == io.EOF {
@@ -399,6 +422,153 @@ func c33FirstDiff(impl, model string) string {
 		}
 	}
 	return "none"
+}
+
+// ---------------------------------------------------------------------------------------------
+// bigw — one big Write (256 KiB+1 … 2 MiB) against a peer that is not reading (or reads a little, late), which fails
+// or succeeds because of a write deadline or a Close while it waits.  args = size, pending, mode, seed
+//   pending 0..4   small buffers already in the channel
+//   mode 0         write deadline already expired (deterministic, single goroutine)
+//   mode 1         write deadline 3 ms in the future
+//   mode 2         Close from another goroutine 3 ms after the Write started
+//   mode 3         a reader takes one buffer 3 ms after the Write started, deadline 200 ms (the Write may complete)
+// Monitor (io.Writer contract + the statement): whatever (n, err) the Write returned, the peer can read exactly
+// pending bytes ++ data[:n], in order, then EOF — nothing that was reported as not written, nothing missing.
+
+func c33BuildBigW(a [][]byte) *Case {
+	if len(a) != 4 {
+		return nil
+	}
+	size, ok1 := c33Atoi(a[0])
+	pending, ok2 := c33Atoi(a[1])
+	mode, ok3 := c33Atoi(a[2])
+	seed, ok4 := c33Atoi(a[3])
+	if !ok1 || !ok2 || !ok3 || !ok4 || size > 3<<20 || pending > 8 || mode > 3 {
+		return nil
+	}
+	pc := fasthttputil.NewPipeConns()
+	defer pc.Close()
+	w, rd := pc.Conn1(), pc.Conn2()
+	expired := time.Now().Add(-time.Hour)
+	var viol *Verdict
+	fail := func(key, format string, args ...any) {
+		if viol == nil {
+			viol = &Verdict{VSpec, key, fmt.Sprintf(format, args...)}
+		}
+	}
+	var want []byte // what the peer must be able to read
+	for i := 0; i < pending; i++ {
+		p := c33Payload(seed+i, 10+i)
+		w.SetWriteDeadline(expired)
+		if n, err := w.Write(p); err == nil && n == len(p) {
+			want = append(want, p...)
+		} else if n > 0 && n <= len(p) {
+			want = append(want, p[:n]...)
+		}
+	}
+	data := c33Payload(seed+77, size)
+	var early []byte // read by the mode 3 reader while the Write runs
+	side := make(chan struct{})
+	switch mode {
+	case 0:
+		w.SetWriteDeadline(expired)
+		close(side)
+	case 1:
+		w.SetWriteDeadline(time.Now().Add(3 * time.Millisecond))
+		close(side)
+	case 2:
+		w.SetWriteDeadline(time.Now().Add(c33Slack))
+		go func() { time.Sleep(3 * time.Millisecond); pc.Close(); close(side) }()
+	case 3:
+		w.SetWriteDeadline(time.Now().Add(200 * time.Millisecond))
+		go func() {
+			time.Sleep(3 * time.Millisecond)
+			buf := make([]byte, 64)
+			rd.SetReadDeadline(time.Now().Add(50 * time.Millisecond))
+			k, _ := rd.Read(buf)
+			early = buf[:k]
+			close(side)
+		}()
+	}
+	type res struct {
+		n   int
+		err error
+	}
+	rc := make(chan res, 1)
+	done := make(chan struct{})
+	go func() { n, err := w.Write(data); rc <- res{n, err}; close(done) }()
+	if !c33WaitCh(done) {
+		pc.Close()
+		return &Case{Impl: "write stuck", Tags: []string{"bigw"}, Judge: func([]string) Verdict {
+			c33Stalls.Store(0)
+			return Verdict{VSpec, "bigw-write-stuck", fmt.Sprintf("Write of %d bytes (mode %d) did not return within %v", size, mode, c33Slack)}
+		}}
+	}
+	r := <-rc
+	c33WaitCh(side)
+	n := r.n
+	if n < 0 || n > len(data) {
+		fail("write-count-range", "Write of %d bytes returned n=%d", len(data), n)
+		n = 0
+	}
+	if r.err == nil && n != len(data) {
+		fail("short-write", "Write of %d bytes returned n=%d, nil", len(data), n)
+	}
+	switch r.err {
+	case nil, fasthttputil.ErrConnectionClosed, error(fasthttputil.ErrTimeout):
+	default:
+		fail("write-unknown-error", "Write returned unexpected error %v", r.err)
+	}
+	want = append(want, data[:n]...)
+	pc.Close()
+	// after Close a Read never waits, so no read deadline is involved (a deadline that fires under heavy machine
+	// load would turn into a spurious ErrTimeout); a tree on which the drain does not end is caught by the guard
+	rd.SetReadDeadline(time.Time{})
+	var rest []byte
+	var rerr error
+	drained := make(chan struct{})
+	go func() { rest, rerr = io.ReadAll(rd); close(drained) }()
+	select {
+	case <-drained:
+	case <-time.After(3 * c33Slack):
+		c33Stalls.Add(1)
+		return &Case{Impl: "drain stuck", Tags: []string{"bigw"}, Judge: func([]string) Verdict {
+			c33Stalls.Store(0)
+			return Verdict{VSpec, "read-blocks-after-close", fmt.Sprintf("draining the peer after Close did not end within %v", 3*c33Slack)}
+		}}
+	}
+	got := append(append([]byte(nil), early...), rest...)
+	if rerr != nil {
+		fail("read-unknown-error", "draining the peer after Close returned %v", rerr)
+	}
+	if !bytes.Equal(got, want) {
+		key := "write-count-mismatch"
+		what := "differs in content from"
+		if len(got) > len(want) && bytes.HasPrefix(got, want) {
+			what = "is longer than"
+		} else if len(got) < len(want) && bytes.HasPrefix(want, got) {
+			what = "is shorter than"
+		}
+		fail(key, "Write of %d bytes with %d buffers pending (mode %d) returned (n=%d, err=%v): the peer read %d bytes, which %s the %d bytes reported as written (pending %d + n %d)",
+			size, pending, mode, r.n, r.err, len(got), what, len(want), len(want)-n, n)
+	}
+	errName := "nil"
+	if r.err != nil {
+		errName = "err"
+	}
+	impl := fmt.Sprintf("size=%d pending=%d mode=%d -> n=%d %s; peer read %d", size, pending, mode, r.n, errName, len(got))
+	tags := []string{"bigw", fmt.Sprintf("bigw-mode%d", mode)}
+	if r.err != nil {
+		tags = append(tags, "bigw-failed")
+	}
+	return &Case{Impl: impl, Tags: tags, Nontrivial: size > 256*1024,
+		Judge: func([]string) Verdict {
+			c33Stalls.Store(0)
+			if viol != nil {
+				return *viol
+			}
+			return Ok()
+		}}
 }
 
 // ---------------------------------------------------------------------------------------------
@@ -1330,7 +1500,9 @@ func c33GenLnConc(r *Rand, emit func(string, ...[]byte)) {
 func init() {
 	Register(&Prop{
 		ID: "C33",
-		Rule: "seq: random single-goroutine sequences (1..~50 ops) of Write(end, 0..10000 position-dependent bytes) / Read(end, 0..8192) / Close on a real PipeConns, " +
+		Rule: "bigw: one Write of 256 KiB+1..2 MiB with 0..4 buffers pending and a peer that is not reading, under an expired / 3 ms write deadline, a Close 3 ms later or a late small read; whatever (n, err) it returns the peer must read exactly pending ++ data[:n] then EOF (all boundary sizes x pending with expired deadline + a timed sample); " +
+			"seq additionally gets sequences with big writes compared with the model; " +
+			"seq: random single-goroutine sequences (1..~50 ops) of Write(end, 0..10000 position-dependent bytes) / Read(end, 0..8192) / Close on a real PipeConns, " +
 			"expired deadlines make a full/empty channel observable as `block`, bursts of 5-6 writes hit the capacity, Close anywhere, drain to EOF twice; " +
 			"conc: 2-5 goroutines without deadlines (duplex streams, writer closes, Close wakes blocked reader, Close wakes blocked writer, Close races); " +
 			"lnseq: Dial/Accept/Close macro-step sequences on a real InmemoryListener (dial goroutines parked in the queue, pairing observed by tokens); " +
@@ -1356,6 +1528,8 @@ func init() {
 				return c33BuildLnSeq(a)
 			case "lnconc":
 				return c33BuildLnConc(a)
+			case "bigw":
+				return c33BuildBigW(a)
 			}
 			return nil
 		},
@@ -1379,6 +1553,38 @@ func init() {
 			emit("lnconc", N(4), N(3), N(2), N(5), N(1))
 			emit("lnconc", N(3), N(2), N(0), N(0), N(0))
 			emit("lnconc", N(3), N(2), N(2), N(0), N(0))
+			// big writes: every boundary size x pending 0..4 with an expired deadline; a sample of the timed modes
+			bigSizes := []int{256*1024 + 1, 512 * 1024, 3*256*1024 + 1, 1<<20 + 1, 5*256*1024 + 123, 2 << 20}
+			for _, sz := range bigSizes {
+				for pend := 0; pend <= 4; pend++ {
+					emit("bigw", N(sz), N(pend), N(0), N(r.Intn(200)))
+				}
+			}
+			nBigT := 24
+			if tier == "thorough" {
+				nBigT = 300
+			}
+			for i := 0; i < nBigT; i++ {
+				emit("bigw", N(256*1024+1+r.Intn(7<<18)), N(r.Intn(5)), N(1+r.Intn(3)), N(r.Intn(200)))
+			}
+			// op sequences with big writes, compared with the model (few: every byte goes through the driver)
+			nBigSeq := 6
+			if tier == "thorough" {
+				nBigSeq = 60
+			}
+			for i := 0; i < nBigSeq; i++ {
+				var args [][]byte
+				for j, m := 0, 2+r.Intn(4); j < m; j++ {
+					sz := r.Intn(3000)
+					if j == 1 || r.Chance(30) {
+						sz = 256*1024 + 1 + r.Intn(5<<18)
+					}
+					args = append(args, d("W"), d("1"), N(sz*256+r.Intn(256)))
+				}
+				args = append(args, d("R"), d("2"), N(1+r.Intn(1<<20)), d("W"), d("1"), N((300*1024)*256+r.Intn(256)),
+					d("R"), d("2"), N(1+r.Intn(8192)), d("C"), d("0"), nil, d("R"), d("2"), N(1<<20))
+				emit("seq", args...)
+			}
 			for i := 0; i < nSeq; i++ {
 				c33GenSeq(r, emit)
 			}
